@@ -598,6 +598,53 @@ func operatorCells(emit func(Case)) {
 				}
 			}
 		}
+		// assignment targets (spec.md#assignments: a variable, an indexed array, or a map field): an index
+		// into anything else, in particular into a string wherever it sits, is not a target
+		for _, sel := range []struct {
+			chain string
+			via   func(*m.Type) *m.Type // type reached by the chain, nil if the chain does not apply
+		}{
+			{"", func(t *m.Type) *m.Type { return t }},
+			{"[0]", func(t *m.Type) *m.Type {
+				if t.K == m.Arr {
+					return t.Sub
+				}
+				return nil
+			}},
+			{".k", func(t *m.Type) *m.Type {
+				if t.K == m.Map {
+					return t.Sub
+				}
+				return nil
+			}},
+			{"[\"k\"]", func(t *m.Type) *m.Type {
+				if t.K == m.Map {
+					return t.Sub
+				}
+				return nil
+			}},
+		} {
+			reached := sel.via(L)
+			if reached == nil {
+				continue
+			}
+			for _, ix := range []string{"[0]", "[-1]", "[\"k\"]", ".k"} {
+				var elem *m.Type
+				switch {
+				case reached.K == m.Arr && ix[0] == '[' && ix[1] != '"':
+					elem = reached.Sub
+				case reached.K == m.Map && (ix[0] == '.' || ix[1] == '"'):
+					elem = reached.Sub
+				}
+				val := "\"x\""
+				if elem != nil && elem.K != m.Any {
+					val = lit(elem)
+				}
+				src := "l:" + L.String() + "\nl" + sel.chain + ix + " = " + val + "\nprint l\n"
+				emit(Case{Src: src, Cell: fmt.Sprintf("target: l%s%s with l:%s", sel.chain, ix, L), Accept: elem != nil,
+					Why: "an assignment target is a variable, an indexed array or a map field; the index of an array is a num, of a map a string"})
+			}
+		}
 		for _, op := range []string{"-", "!"} {
 			ok := (op == "-" && L.K == m.Num) || (op == "!" && L.K == m.Bool)
 			res := ""
